@@ -352,7 +352,7 @@ func c20Run(f []string) string {
 		cols, _ := strconv.Atoi(f[2])
 		multiterm.VerifSetTermSize(rows, cols)
 		return fmt.Sprintf("ok %d %d", multiterm.TermRows(), multiterm.TermCols())
-	case "term", "termx", "termh", "termf":
+	case "term", "termx", "termh", "termf", "termspec":
 		width, _ := strconv.Atoi(f[1])
 		trim := f[2] == "1"
 		clear, hide := true, true
@@ -362,7 +362,7 @@ func c20Run(f []string) string {
 			clear, hide = f[3] == "1", f[4] == "1"
 			hs = f[5]
 		}
-		if f[0] == "termh" {
+		if f[0] == "termh" || f[0] == "termspec" {
 			height, _ = strconv.Atoi(f[2])
 			row0, _ = strconv.Atoi(f[3])
 			trim = f[4] == "1"
@@ -391,6 +391,9 @@ func c20Run(f []string) string {
 		t := newVT(width, height, false)
 		t.row = row0
 		t.feed(out)
+		if f[0] == "termspec" {
+			return fmt.Sprintf("ok rows=%s row=%d vis=%s", t.rowsOut(height), t.row, b01(t.vis))
+		}
 		return fmt.Sprintf("ok b=%s rows=%s row=%d vis=%s", Hex(out), t.rowsOut(height), t.row, b01(t.vis))
 	case "trim":
 		width, _ := strconv.Atoi(f[1])
@@ -758,7 +761,7 @@ func c20Stats(cases []string) map[string]int {
 				st["vt.invalidUtf8"]++
 			}
 			continue
-		case "size":
+		case "size", "termspec":
 			continue
 		case "vtermf":
 			hs = f[1]
